@@ -5,7 +5,9 @@ import json
 from . import common, tlc, vprogs
 from .common import Report, Scratch, rng
 
-VERSIONS = ["1", "10", "1.0-rc_1+b=2@x", "1:2", "a::b", "#x", "v#1:2", ":", "::", "#", "x::y:z#w", "a:b#c::d", "7#", ":1", "1:"]
+VERSIONS = ["1", "10", "1.0-rc_1+b=2@x", "1:2", "a::b", "#x", "v#1:2", ":", "::", "#", "x::y:z#w", "a:b#c::d", "7#", ":1", "1:",
+            # versions that look like pieces of the filesystem layout
+            "1.link", ".link", "2.memento.json", "3.metadata.k", "v.memento.json.link", ".versions", "..", "."]
 ALPHA = "ab1.-_+=:#@"
 
 
@@ -21,14 +23,17 @@ def name_cases(r, quick):
     return cases
 
 
-def evolution_job(r, cluster, callee_cluster, kind):
+def evolution_job(r, cluster, callee_cluster, kind, cv=None):
+    """cv: explicit version string of the callee (None: automatic version)"""
     caller = vprogs.new_fn("m1", "mem", [{"to": "m2", "form": "bare"}], explicit="1", cluster=cluster)
-    callee = vprogs.new_fn("m2", "mem", [], cluster=callee_cluster)
+    callee = vprogs.new_fn("m2", "mem", [], cluster=callee_cluster, explicit=cv)
     p0 = {"nodes": [caller, callee]}
     steps = [{"do": "proc", "hashseed": "0"}, {"do": "call", "name": "m1"}, {"do": "probe", "name": "m1"}]
     if kind == "edit":
         n = copy.deepcopy(callee)
         n["slots"][r.choice(vprogs.SLOTS)] += 1
+        if cv is not None:
+            n["explicit"] = cv + "x"
         steps.append({"do": "set", "node": n})
     elif kind == "remove":
         steps.append({"do": "drop", "name": "m2"})
@@ -37,7 +42,7 @@ def evolution_job(r, cluster, callee_cluster, kind):
         n["cluster"] = "vy" if callee_cluster != "vy" else "vz"
         steps.append({"do": "set", "node": n})
     steps += [{"do": "proc", "hashseed": "0"}, {"do": "call", "name": "m1"}, {"do": "probe", "name": "m1"}]
-    return {"prog": p0, "steps": steps, "clusters": ["vy"], "kind": kind, "cluster": cluster, "callee_cluster": callee_cluster}
+    return {"prog": p0, "steps": steps, "clusters": ["vy"], "kind": kind, "cluster": cluster, "callee_cluster": callee_cluster, "cv": cv}
 
 
 def evolve_events(job, t):
@@ -58,7 +63,8 @@ def evolve_events(job, t):
     want_ext = job["kind"] in ("edit", "remove")
     out.append({"op": "Evolve", "kind": job["kind"], "served": c1.get("ran") == [], "same": c1.get("got") == c0.get("got") and "got" in c1,
                 "memento": bool(p1.get("memento")),
-                "extok": len(p1.get("invs", [])) == 1 and (not want_ext or all(x[1] for x in p1["invs"])),
+                "extok": len(p1.get("invs", [])) == 1 and (not want_ext or all(x[1] for x in p1["invs"]))
+                and (not want_ext or [x[0] for x in p1["invs"]] == [x[0] for x in p0.get("invs", [])]),   # still names what was called
                 "listok": p1.get("nlisted") == 1, "exc": exc})
     return out
 
@@ -92,11 +98,12 @@ def run(prop, tier):
             for cluster, cc in ((None, None), ("vz", "vz"), (None, "vz"), ("vz", None)):
                 for _ in range(1 if quick else 8):
                     evjobs.append(evolution_job(r, cluster, cc, kind))
+                    evjobs.append(evolution_job(r, cluster, cc, kind, cv=r.choice(["a::b", "1:2", "#x", "1.link", "x::y:z#w", "7"])))
         evt = common.run_jobs("ver_worker.py", evjobs, wd, timeout=2400)
         for j, t in zip(evjobs, evt):
             evs = evolve_events(j, t)
             for e in evs:
-                e["case"] = {"kind": j["kind"], "cluster": j["cluster"], "callee_cluster": j["callee_cluster"]}
+                e["case"] = {"kind": j["kind"], "cluster": j["cluster"], "callee_cluster": j["callee_cluster"], "version": j.get("cv") or ""}
             traces.append(evs)
         keep = ("op", "name", "cluster", "module", "function", "hasver", "version", "exc", "by", "ok", "kind", "served", "same", "memento",
                 "extok", "listok")
